@@ -837,10 +837,23 @@ pub fn work_c16(ctx: &Ctx, rep: &mut Report) {
             h.calls.push(Call::FeedStr(corner));
             rep.count("excursions_entered_from_a_corner_state", 1);
         }
+        // an EARLIER, completed excursion that left a saved context on the alternate screen, followed
+        // by a shrink on the primary: what that excursion left behind must not break this one
+        let earlier = r.chance(1, 5);
+        if earlier {
+            let (c, rw) = h.calls.iter().rev().find_map(|x| if let Call::Resize(c, rw) = x { Some((*c, *rw)) } else { None }).unwrap_or((h.cols, h.rows));
+            h.calls.push(Call::FeedStr(format!("\x1b[?{}h\x1b[{};{}H\x1b[1;33m\x1b7\x1b[m\x1b[?{}l", r.pick(&["47", "1047", "1049"]), rw, c, r.pick(&["47", "1047"]))));
+            h.calls.push(Call::Resize((c / 2).max(1), (rw / 2).max(1)));
+            rep.count("excursions_after_an_earlier_excursion_and_a_shrink", 1);
+        }
         let enter_at = h.calls.len();
         let m1 = *r.pick(&["47", "1047", "1049"]);
         h.calls.push(Call::FeedStr(format!("\x1b[?{}h", m1)));
         // excursion
+        let mut first: Vec<Call> = Vec::new();
+        if earlier && r.chance(2, 3) {
+            first.push(Call::FeedStr((*r.pick(&["\x1b8", "\x1b[u", "\x1b[?1048l"])).to_string()));
+        }
         let resized_variant = r.chance(1, 2);
         let mut e = gen::history(&mut r, &eprof);
         let mut ecalls: Vec<Call> = Vec::new();
@@ -869,6 +882,7 @@ pub fn work_c16(ctx: &Ctx, rep: &mut Report) {
                 filter = crate::model::parser::PModel::new();
             }
         }
+        h.calls.extend(first);
         h.calls.extend(ecalls);
         let m2 = if m1 == "1049" && r.chance(3, 4) { "1049" } else { *r.pick(&["47", "1047", "1049"]) };
         let leave_at = h.calls.len();
